@@ -106,6 +106,22 @@ SrcRTrim(c) ==
        ELSE c
 SrcTrim(c) == SrcRTrim(SrcLTrim(c))
 
+\* Deviation "ArgTrailingNewlineDropped" (deliberate in the code, pinned by
+\* test_unnamed_template_arg_end_in_newline): inside a template body (expand_args) every
+\* substituted parameter value loses one final newline, and every argument of a nested call
+\* loses one final newline of its text after substitution, before it is expanded.
+TxtItem(s) == [k |-> "t", s |-> s]
+ArgSrcDrop(c, f, Dev) ==
+  IF "ArgTrailingNewlineDropped" \notin Dev \/ f.top \/ c = <<>> THEN c
+  ELSE LET n == Len(c) last == c[n] IN
+       IF last.k = "t"
+       THEN IF DropOneNL(last.s) = <<>> THEN SubSeq(c, 1, n - 1) ELSE [c EXCEPT ![n] = TxtItem(DropOneNL(last.s))]
+       ELSE IF last.k = "p" /\ HasKey(f, Trim(last.name))
+            THEN [c EXCEPT ![n] = TxtItem(DropOneNL(DropOneNL(ValueOf(f, Trim(last.name)))))]
+       ELSE c
+ParamValue(f, key, Dev) ==
+  IF "ArgTrailingNewlineDropped" \in Dev THEN DropOneNL(ValueOf(f, key)) ELSE ValueOf(f, key)
+
 RECURSIVE Eval(_, _, _, _), EvalItem(_, _, _, _), Bind(_, _, _, _, _, _), SwitchEval(_, _, _, _, _, _),
           EvalJoin(_, _, _, _, _)
 
@@ -123,7 +139,7 @@ Bind(args, i, pos, f, lib, Dev) ==
                        THEN Eval(SrcTrim(a.val), f, lib, Dev)
                        ELSE Trim(Eval(a.val, f, lib, Dev))
             IN <<[key |-> key, val |-> val]>> \o Bind(args, i + 1, pos, f, lib, Dev)
-       ELSE <<[key |-> <<NumAtoms[pos]>>, val |-> Eval(a.val, f, lib, Dev)]>>
+       ELSE <<[key |-> <<NumAtoms[pos]>>, val |-> Eval(ArgSrcDrop(a.val, f, Dev), f, lib, Dev)]>>
             \o Bind(args, i + 1, pos + 1, f, lib, Dev)
 
 \* a case written without "=value" (|a|b|c=X) falls through to the next case that has a
@@ -151,13 +167,13 @@ EvalItem(it, f, lib, Dev) ==
     [] it.k = "x" -> <<"[", "http://x.y", "SP">> \o Eval(it.c, f, lib, Dev) \o <<"]">>
     [] it.k = "p" ->
          LET key == Trim(it.name) IN
-         IF ~f.top /\ HasKey(f, key) THEN ValueOf(f, key)
+         IF ~f.top /\ HasKey(f, key) THEN ParamValue(f, key, Dev)
          ELSE IF it.hasDef THEN Eval(it.def, f, lib, Dev)
          ELSE <<"{{{">> \o key \o <<"}}}">>
     \* {{{computed name|default}}}: the name is itself content, evaluated in the same frame
     [] it.k = "pc" ->
          LET key == Trim(Eval(it.name, f, lib, Dev)) IN
-         IF ~f.top /\ HasKey(f, key) THEN ValueOf(f, key)
+         IF ~f.top /\ HasKey(f, key) THEN ParamValue(f, key, Dev)
          ELSE IF it.hasDef THEN Eval(it.def, f, lib, Dev)
          ELSE <<"{{{">> \o key \o <<"}}}">>
     [] it.k = "c" ->
